@@ -561,6 +561,15 @@ def stream_matrix_solve(c, N, matrix):
             nr = rng.choice([1, 2, 2, 3, 3, 4]); nc = nr if rng.random() < .85 else rng.choice([1, 2, 3, 4])
             A = gen_int_matrix(rng, nr, nc)
         lhs0, cons, rcons = gen_constraints(rng, nr, nc)
+        if cases and A is cases[-1][0] and rng.random() < .5:
+            # same Matrix object, same row selection, different column selection (or vice versa): the submatrix cache must notice
+            pc, pr = cases[-1][5], cases[-1][6]
+            if pc is not None and pc.dtype == bool and pr is not None:
+                if rng.random() < .5:
+                    perm = list(pc); rng.shuffle(perm); cons, rcons = numpy.array(perm, dtype=bool), pr.copy()
+                else:
+                    perm = list(pr); rng.shuffle(perm); cons, rcons = pc.copy(), numpy.array(perm, dtype=bool)
+                c.count('solve:cache-probe')
         if lhs0 is None and cons is None and rcons is None and rng.random() < .7:
             lhs0 = numpy.zeros(nc)
         # a target solution that respects the constraints, so that an exact inner solution exists
@@ -1012,39 +1021,48 @@ def e2e_linear(c, N, matrix):
     precons = sorted(n[len('_precon_'):] for n in dir(probe) if n.startswith('_precon_') and not n.startswith('_precon_sym_') and callable(getattr(probe, n)))
     c.extra['numpy_backend_solvers'] = solvers; c.extra['numpy_backend_precons'] = precons
     nbad = 0
+    follow = None
     TOL = [(0., 0.), (0., 0.), (1e-10, 0.), (0., 1e-8), (1e-6, 1e-3), (1e3, 0.), (0., 1.), (1e-14, 0.), (0., 1e-13)]
     for _ in range(N):
-        n = rng.choice([1, 2, 3, 4, 5, 6])
-        kind, A = gen_dense(rng, n)
-        M = mk_matrix(matrix, A, rng)
-        ncol = rng.choice([None, None, None, 2])
-        shape = (n,) if ncol is None else (n, ncol)
-        rk = rng.choice(['random', 'range', 'zero', 'tiny', 'random'])
-        rhs = numpy.array([rng.uniform(-2, 2) for _ in range(int(numpy.prod(shape)))]).reshape(shape)
-        if rk == 'range': rhs = numpy.einsum('ij,j...->i...', A, rhs)
-        elif rk == 'zero': rhs = numpy.zeros(shape)
-        elif rk == 'tiny': rhs = rhs * 1e-14
-        atol, rtol = rng.choice(TOL)
-        sol = rng.choice(solvers)
-        args = dict(solver=sol, atol=atol, rtol=rtol)
-        if sol == 'arnoldi':
-            if rng.random() < .4: args['precon'] = rng.choice(precons)
-            if rng.random() < .2: args['truncate'] = rng.choice([1, 2, 5])
-        elif (atol or rtol) and rng.random() < .2: args['precon'] = rng.choice(precons)
-        if kind == 'spd' and rng.random() < .3: args['symmetric'] = True
-        # constraints
-        lhs0 = cons = rcons = None
-        r = rng.random()
-        if r < .25: pass
-        elif r < .45 and ncol is None: lhs0 = numpy.array([rng.uniform(-1, 1) for _ in range(n)])
-        elif r < .7:
-            cons = numpy.array([rng.random() < .35 for _ in range(n)], dtype=bool)
-            if rng.random() < .7 and ncol is None: lhs0 = numpy.array([rng.uniform(-1, 1) for _ in range(n)])
-            if rng.random() < .3:
-                rows = list(cons); rng.shuffle(rows); rcons = numpy.array(rows, dtype=bool)
+        if follow is not None:
+            # same Matrix object (submatrix cache!), same rows, other columns
+            n, kind, A, M, ncol, shape, rhs, atol, rtol, sol, args, lhs0, cons, rcons = follow; follow = None
+            c.count('e2e-linear:matrix-object-reused')
         else:
-            cons = numpy.array([rng.uniform(-1, 1) if rng.random() < .35 else math.nan for _ in range(n)])
-            if rng.random() < .5 and ncol is None: lhs0 = numpy.array([rng.uniform(-1, 1) for _ in range(n)])
+            n = rng.choice([1, 2, 3, 4, 5, 6])
+            kind, A = gen_dense(rng, n)
+            M = mk_matrix(matrix, A, rng)
+            ncol = rng.choice([None, None, None, 2])
+            shape = (n,) if ncol is None else (n, ncol)
+            rk = rng.choice(['random', 'range', 'zero', 'tiny', 'random'])
+            rhs = numpy.array([rng.uniform(-2, 2) for _ in range(int(numpy.prod(shape)))]).reshape(shape)
+            if rk == 'range': rhs = numpy.einsum('ij,j...->i...', A, rhs)
+            elif rk == 'zero': rhs = numpy.zeros(shape)
+            elif rk == 'tiny': rhs = rhs * 1e-14
+            atol, rtol = rng.choice(TOL)
+            sol = rng.choice(solvers)
+            args = dict(solver=sol, atol=atol, rtol=rtol)
+            if sol == 'arnoldi':
+                if rng.random() < .4: args['precon'] = rng.choice(precons)
+                if rng.random() < .2: args['truncate'] = rng.choice([1, 2, 5])
+            elif (atol or rtol) and rng.random() < .2: args['precon'] = rng.choice(precons)
+            if kind == 'spd' and rng.random() < .3: args['symmetric'] = True
+            # constraints
+            lhs0 = cons = rcons = None
+            r = rng.random()
+            if r < .25: pass
+            elif r < .45 and ncol is None: lhs0 = numpy.array([rng.uniform(-1, 1) for _ in range(n)])
+            elif r < .7:
+                cons = numpy.array([rng.random() < .35 for _ in range(n)], dtype=bool)
+                if rng.random() < .7 and ncol is None: lhs0 = numpy.array([rng.uniform(-1, 1) for _ in range(n)])
+                if rng.random() < .3:
+                    rows = list(cons); rng.shuffle(rows); rcons = numpy.array(rows, dtype=bool)
+            else:
+                cons = numpy.array([rng.uniform(-1, 1) if rng.random() < .35 else math.nan for _ in range(n)])
+                if rng.random() < .5 and ncol is None: lhs0 = numpy.array([rng.uniform(-1, 1) for _ in range(n)])
+            if cons is not None and cons.dtype == bool and 0 < cons.sum() < n and rng.random() < .6:
+                perm = list(cons); rng.shuffle(perm)
+                follow = (n, kind, A, M, ncol, shape, rhs, atol, rtol, sol, args, lhs0, numpy.array(perm, dtype=bool), (cons if rcons is None else rcons).copy())
         kw = {k: v.copy() for k, v in (('lhs0', lhs0), ('constrain', cons), ('rconstrain', rcons)) if v is not None}
         lenient = rng.random() < .15
         # ---- independent description
